@@ -233,7 +233,7 @@ PROPS = {
              "oracle-free monitors: output is a deletion of whole query pieces, differs from the input, never reported together with an "
              "important block; the same requests on a live Blocker before and after an explicit optimize(), on a Blocker that received the rules one "
              "add_filter at a time, and through check_network_request_subset under the other flag combinations must give the engine's rewrite; "
-             "$badfilter is read at text level (a line `R,badfilter` cancels the lines that spell R up to option order and redundant type options) "
+             "$badfilter is read at text level (a line `R,badfilter` cancels the lines that spell R up to option order; cases where a rule equals a badfilter line up to type options only are not judged) "
              "and every removed parameter must be named by a surviving rule whose type options, read from its text, admit the request type. "
              "non-trivial = >= 1 matching removeparam rule and a non-empty query; distinct = hash of (rules, request).",
         assumptions=["matching of the removeparam rules themselves is the per-rule matcher's (C02/C03)"],
